@@ -579,11 +579,14 @@ class ClassModificationArgument(Node):
         )
 
     def __deepcopy__(self, memo):
-        _scope, _deepcp = self.scope, self.__deepcopy__
-        self.scope, self.__deepcopy__ = None, None
-        new = copy.deepcopy(self, memo)
-        self.scope, self.__deepcopy__ = _scope, _deepcp
-        new.scope, new.__deepcopy__ = _scope, _deepcp
+        # The scope is shared with the original, not copied
+        new = self.__class__.__new__(self.__class__)
+        memo[id(self)] = new
+        for key, value in self.__dict__.items():
+            if key == "scope":
+                new.__dict__[key] = value
+            else:
+                new.__dict__[key] = copy.deepcopy(value, memo)
         return new
 
 
@@ -854,15 +857,16 @@ class Class(Node):
         self.initial_equations.remove(e)
 
     def __deepcopy__(self, memo):
-        # Avoid copying the entire tree
-        if self.parent is not None and self.parent not in memo:
+        # Avoid copying the entire tree when a class is copied on its own: the parent is
+        # shared with the original, unless the parent is being copied as well (in which
+        # case the copy gets the copied parent).
+        if self.parent is not None and id(self.parent) not in memo:
             memo[id(self.parent)] = self.parent
 
-        _deepcp = self.__deepcopy__
-        self.__deepcopy__ = None
-        new = copy.deepcopy(self, memo)
-        self.__deepcopy__ = _deepcp
-        new.__deepcopy__ = _deepcp
+        new = self.__class__.__new__(self.__class__)
+        memo[id(self)] = new
+        for key, value in self.__dict__.items():
+            new.__dict__[key] = copy.deepcopy(value, memo)
         return new
 
     def __repr__(self):
